@@ -89,7 +89,12 @@ func VerifHarness_C13_totals() {
 		}
 		for c := 0; c < I; c++ {
 			rl, cpu, mem := symRequests(ps+".i"+strconv.Itoa(c), forms == 1)
-			pod.Spec.InitContainers = append(pod.Spec.InitContainers, v1.Container{Resources: v1.ResourceRequirements{Requests: rl}})
+			ic := v1.Container{Resources: v1.ResourceRequirements{Requests: rl}}
+			if verifShape(5) == 1 && verifChoice(ps+".i"+strconv.Itoa(c)+".restartAlways", 2) == 1 {
+				always := v1.ContainerRestartPolicyAlways // a "sidecar": the definition knows no such distinction
+				ic.RestartPolicy = &always
+			}
+			pod.Spec.InitContainers = append(pod.Spec.InitContainers, ic)
 			initCPU = imax(initCPU, cpu)
 			initMem = imax(initMem, mem)
 		}
@@ -125,6 +130,13 @@ func VerifHarness_C13_capacity() {
 		node.Status.Capacity = v1.ResourceList{
 			v1.ResourceCPU:    *resource.NewMilliQuantity(64000, resource.DecimalSI),
 			v1.ResourceMemory: *resource.NewQuantity(1<<38, resource.BinarySI),
+		}
+		// neither does readiness: capacity is the allocatable of untainted uncordoned nodes
+		switch verifChoice(ns+".ready", 3) {
+		case 1:
+			node.Status.Conditions = []v1.NodeCondition{{Type: v1.NodeReady, Status: v1.ConditionTrue}}
+		case 2:
+			node.Status.Conditions = []v1.NodeCondition{{Type: v1.NodeReady, Status: v1.ConditionUnknown}}
 		}
 		if verifChoice(ns+".hasAllocatable", 2) == 1 {
 			rl, cpu, mem := symRequests(ns+".alloc", forms == 1)
@@ -179,7 +191,12 @@ var c14P = ""
 
 func c14Owners(pod *v1.Pod) bool {
 	daemon := false
-	switch verifChoice(c14P+"owners", 4) {
+	switch verifChoice(c14P+"owners", 5) {
+	case 4:
+		// owned by a DaemonSet, with another object as the managing controller
+		yes := true
+		pod.OwnerReferences = []metav1.OwnerReference{{Kind: "DaemonSet"}, {Kind: "ReplicaSet", Controller: &yes}}
+		daemon = true
 	case 1:
 		pod.OwnerReferences = []metav1.OwnerReference{{Kind: "ReplicaSet"}}
 	case 2:
